@@ -2,8 +2,8 @@
   Model of the inotify half of src/unix/linux.c (2546-2727): `struct watcher_list`, find_watcher,
   maybe_free_watcher_list, uv__inotify_read, uv_fs_event_start/stop, uv__fs_event_close — C17.
 
-  * `loop->inotify_watchers` (RB tree keyed by wd) is the association list `lists`; only lookups by
-    wd, insert and remove are used.  A `watcher_list` that was freed is simply absent: every access
+  * `loop->inotify_watchers` (RB tree keyed by wd) is the finite map `lists : wd → Option WL`; only
+    lookups by wd, insert and remove are used.  A `watcher_list` that was freed is simply absent: every access
     the C code makes through a pointer it still holds is modelled as a lookup, and a failed lookup
     where the C code would dereference the stale pointer sets `err` (use after free).
   * `queue` is the local `struct uv__queue queue` of uv__inotify_read (the detached watchers not yet
@@ -55,7 +55,7 @@ deriving DecidableEq, Repr, Inhabited
 abbrev Script := Nat → List Op
 
 structure S where
-  lists : List WL := []
+  lists : Nat → Option WL := fun _ => none
   hs : Nat → Handle := fun _ => {}
   queue : List Nat := []
   inited : Bool := false        -- init_inotify ran
@@ -69,10 +69,10 @@ def upd {α : Type} (f : Nat → α) (i : Nat) (v : α) : Nat → α := fun j =>
 def S.emit (s : S) (o : Obs) : S := { s with trace := o :: s.trace }
 
 /-- find_watcher -/
-def find (s : S) (wd : Nat) : Option WL := s.lists.find? (·.wd == wd)
+def find (s : S) (wd : Nat) : Option WL := s.lists wd
 
-def setList (s : S) (w : WL) : S :=
-  { s with lists := s.lists.map (fun x => if x.wd == w.wd then w else x) }
+/-- write back a list record (RB_INSERT for a new one, in-place update otherwise) -/
+def setList (s : S) (w : WL) : S := { s with lists := upd s.lists w.wd (some w) }
 
 def UV_RENAME : Nat := 1
 def UV_CHANGE : Nat := 2
@@ -90,7 +90,7 @@ def maybeFree (s : S) (wd : Nat) : S :=
   | none => { s with err := true }
   | some w =>
     if !w.iterating && w.watchers.isEmpty then
-      ({ s with lists := s.lists.filter (fun x => !(x.wd == wd)) }).emit (.rmwatch wd)
+      ({ s with lists := upd s.lists wd none }).emit (.rmwatch wd)
     else s
 
 /-- uv_fs_event_start, linux.c:2646-2702 -/
@@ -105,7 +105,7 @@ def apiStart (s : S) (h cb wd alias : Nat) : S :=
       let s := s.emit (.addwatch wd)
       let s := match find s wd with
         | some _ => s
-        | none => { s with lists := { wd := wd, path := s!"w{wd}_{alias}" } :: s.lists }
+        | none => setList s { wd := wd, path := s!"w{wd}_{alias}" }
       match find s wd with
       | none => { s with err := true }
       | some w =>
@@ -188,5 +188,30 @@ def step (sc : Script) (s : S) : In → S
   | .dispatch rs => dispatch sc s rs
 
 def run (sc : Script) (s : S) (ins : List In) : S := ins.foldl (step sc) s
+
+/-! ### Specification vocabulary (used by Props/C17) -/
+
+/-- callbacks in the trace, newest first: (handle, reported name, events) -/
+def cbsOf : List Obs → List (Nat × String × Nat)
+  | [] => []
+  | .cb h _ name ev :: t => (h, name, ev) :: cbsOf t
+  | _ :: t => cbsOf t
+
+/-- the handle an API call stops, if any -/
+def stopTarget : Op → Option Nat
+  | .stop h => some h
+  | .close h => some h
+  | .start _ _ _ _ => none
+
+/-- what a callback's script does to the handles still waiting for their turn -/
+def eraseAll (q : List Nat) (ops : List Op) : List Nat :=
+  ops.foldl (fun q o => match stopTarget o with | some h => q.erase h | none => q) q
+
+/-- who is called for one record: the head of the detached queue, then — after removing whatever its
+    callback (the k-th of the run) stopped or closed — the rest, in order.  `fuel` ≥ queue length. -/
+def specDeliver (sc : Script) : Nat → Nat → List Nat → List Nat
+  | 0, _, _ => []
+  | _ + 1, _, [] => []
+  | f + 1, k, h :: rest => h :: specDeliver sc f (k + 1) (eraseAll rest (sc k))
 
 end UvModel.FsEvent
